@@ -91,8 +91,8 @@ theorem mem_step (v : Variant) (prog : Program) {sys : Sys} {t a rest} (hI : Mem
   | respConsume id c r =>
     have hhit := hI.pend_hit _ _ _ hin
     cases c with
-    | plain tag =>
-      rw [after_eq (show step v sys.st (.respConsume id (.plain tag) r) = _ from rfl)]
+    | plain tag fl =>
+      rw [after_eq (show step v sys.st (.respConsume id (.plain tag fl) r) = _ from rfl)]
       refine ⟨hI.out_reg, ?_, hI.hit_reg, ?_, ?_, ?_⟩
       · intro id c r hx; rcases hflat hx with h | h
         · simp at h
